@@ -71,10 +71,11 @@ Proof.
   intros Hle. unfold translate_status, theory_translate, tau_star_total.
   destruct (TauStar.tau_star p) as [g|]; [|discriminate].
   destruct (completion _ _) as [th|]; [|discriminate].
-  destruct (et_simplify t); [|reflexivity]. intros H. rewrite (simplify_status_done_map n m th Hle H). reflexivity.
+  cbv zeta. destruct (et_simplify t); [|reflexivity]. intros H. rewrite (simplify_status_done_map n m _ Hle H). reflexivity.
 Qed.
 
-(* the completed theory of a program of the task (what the loop runs over) *)
+(* the completed theory of a program of the task, with the empty definitions of the missing output
+   predicates (what the loop runs over) *)
 Definition completed_of (t : ext_task) (p : program) : theory :=
   match TauStar.tau_star p with
   | None => []
@@ -82,7 +83,7 @@ Definition completed_of (t : ext_task) (p : program) : theory :=
       match completion (rp_theory (ph_of_fconsts (ug_placeholders (et_user_guide t))) g)
                        (ug_input_predicates (et_user_guide t)) with
       | None => []
-      | Some th => th
+      | Some th => th ++ missing_output_definitions (ug_output_predicates (et_user_guide t)) th
       end
   end.
 Lemma translate_status_terminates m t p :
